@@ -27,7 +27,7 @@ func (c *Check) routerRoles(id string) *RouterRoles {
 			if !ok {
 				return
 			}
-			cal := g.Call.StaticCallee()
+			cal := CalleeFn(&g.Call)
 			if cal == nil || len(cal.Blocks) == 0 {
 				return
 			}
@@ -59,7 +59,7 @@ func (c *Check) routerRoles(id string) *RouterRoles {
 		if _, isGo := cl.(*ssa.Go); isGo {
 			continue
 		}
-		if !cl.Common().IsInvoke() && cl.Common().StaticCallee() == nil && FromParam(r.ChainParam)(cl.Common().Value) {
+		if !cl.Common().IsInvoke() && CalleeFn(cl.Common()) == nil && FromParam(r.ChainParam)(cl.Common().Value) {
 			r.ChainCalls = append(r.ChainCalls, cl)
 		}
 	}
@@ -82,7 +82,7 @@ func SettleSites(fn *ssa.Function, kind string, isMsg func(ssa.Value) bool, dept
 		if depth <= 0 {
 			continue
 		}
-		cal := cl.Common().StaticCallee()
+		cal := CalleeFn(cl.Common())
 		if cal == nil || cal.Pkg != fn.Pkg || len(cal.Blocks) == 0 {
 			continue
 		}
